@@ -1,8 +1,8 @@
 """Explanation machinery for the known f-string findings (C10).
 
 neutralise(src) rewrites every f-string literal of `src`, removing exactly the features that the
-listed known findings are about (doubled braces, \\N{..} escapes, '=' debug fields, nested
-replacement fields inside a format spec, empty / multi-line / '='-leading specs, non-ASCII
+listed known findings are about (doubled braces, '=' debug fields, nested
+'='-leading specs, non-ASCII
 characters) and returns the rewritten text plus the set of families it touched.  A difference
 between the implementation and CPython counts as *explained* only if the rewritten text -- the
 same literal without those features -- shows no difference at all; otherwise it stays a
@@ -82,54 +82,25 @@ def _scan_field(s: str, i: int, out: list, fam: set, raw: bool = False) -> int:
         spec = []
         while k < len(s):
             c = s[k]
-            if c == "\\" and not raw and s.startswith("\\N{", k):
-                fam.add("named_escape")
+            if c == "\\" and not raw and s.startswith("\\N{", k):      # a named escape is literal text (kept as it is)
                 e = s.find("}", k)
-                spec.append("N")
-                k = len(s) if e < 0 else e + 1
+                e = len(s) if e < 0 else e + 1
+                spec.append(s[k:e])
+                k = e
                 continue
-            if c == "{" and not s.startswith("{{", k):
-                # nested replacement field
-                fam.add("nested_spec")
-                e = k + 1
-                dd = 0
-                while e < len(s):
-                    if s[e] in "'\"":
-                        e = _skip_string(s, e)
-                        continue
-                    if s[e] in "([{":
-                        dd += 1
-                    elif s[e] in ")]}":
-                        if dd == 0 and s[e] == "}":
-                            break
-                        dd -= 1
-                    e += 1
-                spec.append("9")
-                k = e + 1
-                continue
-            if s.startswith("{{", k) or s.startswith("}}", k):
-                fam.add("doubled_brace")
-                spec.append("<")
-                k += 2
+            if c == "{":
+                # nested replacement field (braces are not doubled inside a spec): rewritten like any other field
+                k = _scan_field(s, k, spec, fam, raw)
                 continue
             if c == "}":
                 break
-            if c in "\r\n":
-                fam.add("multiline_spec")
-                spec.append(" ")
-                k += 2 if s.startswith("\r\n", k) else 1
-                continue
             spec.append(c)
             k += 1
         text = "".join(spec)
-        if text == "":
-            fam.add("empty_spec")
-        elif text.startswith("="):
+        if text.startswith("="):
             fam.add("walrus_like_spec")
             text = ">" + text[1:]
-            out.append(":" + text)
-        else:
-            out.append(":" + text)
+        out.append(":" + text)
         j = k
     out.append("}")
     return j + 1
@@ -151,14 +122,13 @@ def _rewrite_fstring(lit: str, fam: set) -> str:
             fam.add("doubled_brace")
             out.append("<" if c == "{" else ">")
             j += 2
-        elif c == "\\" and not raw and body.startswith("\\N{", j):
-            fam.add("named_escape")
+        elif c == "\\" and not raw and body.startswith("\\N{", j):     # a named escape is literal text (kept as it is)
             e = body.find("}", j)
-            out.append("N")
-            j = len(body) if e < 0 else e + 1
-        elif c == "\\" and j + 1 < len(body) and body[j + 1] == "{":
-            fam.add("backslash_brace")
-            out.append("b")
+            e = len(body) if e < 0 else e + 1
+            out.append(body[j:e])
+            j = e
+        elif c == "\\" and j + 1 < len(body) and body[j + 1] == "{":       # the backslash is text, the brace opens a field
+            out.append(c)
             j += 1
         elif c == "\\":
             out.append(body[j: j + 2])
@@ -210,12 +180,7 @@ def neutralise(src: str) -> tuple[str, set]:
 
 FAMILY_FINDING = {
     "doubled_brace": "K-C10-doubled-brace-tokens",
-    "named_escape": "K-C10-named-escape",
-    "backslash_brace": "K-C10-named-escape",
     "debug": "K-C10-debug-equals",
-    "nested_spec": "K-C10-nested-spec-fields",
-    "empty_spec": "K-C10-empty-spec",
-    "multiline_spec": "K-C10-multiline-spec",
     "walrus_like_spec": "K-C10-walrus-like-spec",
     "nonascii": "K-C10-nonascii-columns",
     "conversion_space": "K-C10-conversion-space",
